@@ -1061,6 +1061,27 @@ class Run(object):
             if nc >= 2 and uneq:
                 self.labels.add('t:unequal_vol')
                 self.nontrivial = True
+        # order1 recomputes the density of *every* source particle, ghosts
+        # included, from the particles present.  A periodic image within
+        # reach of a target needs neighbours up to two neighbour cells
+        # outside the face; single-period images provide them only when the
+        # box is at least two cells wide.  In a narrower box the density of
+        # those ghosts is a truncated sum whose value depends on which ghosts
+        # the domain manager keeps (C07's subject), so the defining sum is
+        # not evaluated there.
+        self.o1_truncated = False
+        if self.method == 'order1' and case.get('periodic'):
+            per = case['periodic']
+            hs = [float(np.max(ref.H))] if len(ref.H) else []
+            if len(th):
+                hs.append(float(np.max(th)))
+            cell = ref.rs * max(hs) if hs else 0.0
+            for a in range(3):
+                if per['per'][a] and \
+                        (per['hi'][a] - per['lo'][a]) <= 2.0 * cell * 1.001:
+                    self.o1_truncated = True
+            if self.o1_truncated:
+                self.labels.add('order1:box_narrower_than_2_cells')
         comps = list(range(dim + 1)) if self.method == 'order1' else [0]
         ncall = 0
         for field in case['order']:
@@ -1112,6 +1133,8 @@ class Run(object):
                                   m, what, got, where), phase, what=kwhat,
                               expected=0.0, observed=got)
                     return True
+                continue
+            if m == 'order1' and getattr(self, 'o1_truncated', False):
                 continue
             if not (abs(got - val) <= tol):
                 self.fail('value_differs', '%s of %s: got %r, defining sum '
